@@ -228,9 +228,7 @@ fn check_cpu_part(before: &Machine, after: &Machine, kind: &str) -> Option<V> {
     if after.registers().content() != &[0u8; 8] {
         return Some((format!("C07:{}:registers-not-cleared", kind), format!("registers after reset: {:?}", after.registers().content())));
     }
-    let mut s = after.verif_snapshot();
-    // the level interrupt line is not the key interrupt and is never driven; ignore it
-    s.pending_level_interrupt = false;
+    let s = after.verif_snapshot();
     if s != power_on_snapshot() {
         return Some((format!("C07:{}:sequencer-not-reset", kind), format!("sequencer/pipeline state after reset: {:?}", s)));
     }
